@@ -1012,3 +1012,89 @@ V('c15-twin-mkstemp', 'C15', 'R15.1', MIO,
   '''        target_dir = os.path.dirname(file_path)
         with NamedTemporaryFile('w', dir=target_dir, delete=False) as tmp:''',
   expect='silent')
+
+# ---------------------------------------------------------------- C09
+DICTINIT = 'pymap/backend/dict/__init__.py'
+MDINIT = 'pymap/backend/maildir/__init__.py'
+SIEVEM = 'pymap/sieve/manage/__init__.py'
+USERPY = 'pymap/user.py'
+V('c09-sieve-state-before-login', 'C09', 'R9.1', SIEVEM,
+  '''        if not self._offer_starttls:
+            return Response(Condition.NO, text='Bad command.')''',
+  '''        if not self._offer_starttls:
+            self._state = None
+            return Response(Condition.NO, text='Bad command.')''')
+V('c09-no-authorize', 'C09', 'R9.2', STATE,
+  '''        authorized = await self.login.authorize(authenticated, creds.authzid)
+        return await stack.enter_async_context(authorized.new_session())''',
+  '''        return await stack.enter_async_context(authenticated.new_session())''')
+V('c09-authorize-authcid', 'C09', 'R9.2', STATE,
+  'await self.login.authorize(authenticated, creds.authzid)',
+  'await self.login.authorize(authenticated, creds.authcid)')
+V('c09-dict-no-check', 'C09', 'R9.3', DICTINIT,
+  '''        if not await self._passwords.check_password(user, credentials):
+            raise InvalidAuth()
+        roles |= user.roles''', '''        roles |= user.roles''')
+V('c09-maildir-check-inverted', 'C09', 'R9.3', MDINIT,
+  '''        if not await self._passwords.check_password(user, credentials):
+            raise InvalidAuth()
+        return identity''',
+  '''        if await self._passwords.check_password(user, credentials):
+            raise InvalidAuth()
+        return identity''')
+V('c09-unknown-user-returns', 'C09', 'R9.3', DICTINIT,
+  '''        except UserNotFound:
+            await asyncio.sleep(self.config.invalid_user_sleep)
+            user = UserMetadata(self.config, authcid)''',
+  '''        except UserNotFound:
+            await asyncio.sleep(self.config.invalid_user_sleep)
+            return identity''')
+V('c09-verify-skipped', 'C09', 'R9.3', USERPY,
+  '''        return credentials.verify(identity)''',
+  '''        return credentials.verify(identity) or identity.password is None''')
+V('c09-compare-secret-none-true', 'C09', 'R9.3', USERPY,
+  '''            return hash_context.verify(prepare(value), prepare(password))
+        return False''', '''            return hash_context.verify(prepare(value), prepare(password))
+        return True''')
+V('c09-authorize-or', 'C09', 'R9.4', DICTINIT,
+  "if authcid != authzid and 'admin' not in roles:",
+  "if authcid != authzid or 'admin' not in roles:")
+V('c09-authorize-no-role', 'C09', 'R9.4', MDINIT,
+  "if authcid != authzid and roles.isdisjoint({'sudo', 'admin'}):",
+  "if authcid != authzid and not roles:")
+V('c09-authorize-dropped', 'C09', 'R9.4', DICTINIT,
+  '''        if authcid != authzid and 'admin' not in roles:
+            raise AuthorizationFailure()
+''', '')
+V('c09-logindisabled-late', 'C09', 'R9.5', STATE,
+  '''        if b'LOGINDISABLED' in self.capability:
+            raise NotSupportedError('LOGIN is disabled.')
+        creds = PlainCredentials(
+            cmd.userid.decode('utf-8', 'surrogateescape'),
+            cmd.password.decode('utf-8', 'surrogateescape'))
+        return await self.do_authenticate(cmd, creds), None''',
+  '''        creds = PlainCredentials(
+            cmd.userid.decode('utf-8', 'surrogateescape'),
+            cmd.password.decode('utf-8', 'surrogateescape'))
+        ret = await self.do_authenticate(cmd, creds), None
+        if b'LOGINDISABLED' in self.capability:
+            raise NotSupportedError('LOGIN is disabled.')
+        return ret''')
+V('c09-capability-auth-write', 'C09', 'R9.6', STATE,
+  '''        response = ResponseOk(cmd.tag, b'Capabilities listed.')
+        response.add_untagged''', '''        self.auth = self.config.tls_auth
+        response = ResponseOk(cmd.tag, b'Capabilities listed.')
+        response.add_untagged''')
+V('c09-greeting-tls-auth-remote', 'C09', 'R9.6', STATE,
+  '''        elif sock_info.from_localhost:
+            self.auth = self.config.tls_auth''',
+  '''        else:
+            self.auth = self.config.tls_auth''')
+V('c09-revert-auth-gate', 'C09', 'R9.8', IMAP,
+  '''                    if isinstance(cmd, AuthenticateCommand) \\
+                            and not state.authenticated:''',
+  '''                    if isinstance(cmd, AuthenticateCommand):''')
+# twin
+V('c09-twin-authorize-nested', 'C09', 'R9.4', DICTINIT,
+  "if authcid != authzid and 'admin' not in roles:",
+  "if not (authcid == authzid or 'admin' in roles):", expect='silent')
